@@ -281,7 +281,8 @@ def tie_case(res, c, pi, pm, a, b, what):
         return True
     iy = [(y['k'], y['rel_base'], y['depth'] if y['k'] == 'x' else (1 if y['kind'] == 'd' else 0)) for y in pi['yield']]
     my = [(k, p, d) for (k, p, d) in pm['yield']]
-    if os.path.islink(c.base.rstrip('/')) if isinstance(c.base, str) and c.base.startswith('/') else False:
+    absbase = c.base if (isinstance(c.base, str) and c.base.startswith('/')) else os.path.join(getattr(c, 'cwd', None) or '', c.base or '')
+    if absbase.startswith('/') and os.path.islink(absbase.rstrip('/')):
         # the directory given to the walk is a link: it is opened, but its own entry reports the file type of the link
         iy = [(k, p, (None if (k == 'e' and p == '') else d)) for (k, p, d) in iy]
         my = [(k, p, (None if (k == 'e' and p == '') else d)) for (k, p, d) in my]
